@@ -96,11 +96,21 @@ func (d *Dispatcher) updateDispatchedAmount(
 	da := d.GetDispatchedAmount(ctx, sourceID, destID, denom)
 	amount := da.AmountDispatched
 
+	// NOTE: math.Int.Add panics on overflow. The caller only tolerates errors (a failed stats
+	// update must not interrupt the dispatch), so the overflow is reported as an error.
 	if newAmount.Incoming.IsPositive() {
-		amount.Incoming = amount.Incoming.Add(newAmount.Incoming)
+		incoming, err := amount.Incoming.SafeAdd(newAmount.Incoming)
+		if err != nil {
+			return errorsmod.Wrap(err, "dispatched incoming amount overflow")
+		}
+		amount.Incoming = incoming
 	}
 	if newAmount.Outgoing.IsPositive() {
-		amount.Outgoing = amount.Outgoing.Add(newAmount.Outgoing)
+		outgoing, err := amount.Outgoing.SafeAdd(newAmount.Outgoing)
+		if err != nil {
+			return errorsmod.Wrap(err, "dispatched outgoing amount overflow")
+		}
+		amount.Outgoing = outgoing
 	}
 
 	return d.SetDispatchedAmount(ctx, sourceID, destID, denom, amount)
